@@ -1,0 +1,28 @@
+//go:build verif
+
+package autocert
+
+// Contracts for govc (/verif). Comments only.
+
+//@ func (*lockedMathRand).int63n
+//@ props C51
+//@ requires r.rnd != nil
+//@ may_panic_when max <= 0
+//@ ensures 0 <= result && result < max
+
+// The renewal delay. tA/tB: abstract instants of the certificate's
+// NotAfter/NotBefore (nanoseconds); instants are assumed to lie in a range
+// where time arithmetic does not saturate (about +-36 years around the
+// epoch is far more than enough; stated as +-2^61 ns).
+//@ pred inst(t) = spec.tns(t.wall, t.ext)
+//@ pred d30() = 2592000000000000
+//@ pred thr(rb, life) = ite(rb > 0, min(rb, d30()), min(life / 3, d30()))
+
+//@ func (*domainRenewal).next
+//@ props C51
+//@ assume_global pseudoRand != nil && pseudoRand.rnd != nil
+//@ requires dr.m != nil
+//@ requires 0 - 2305843009213693952 <= inst(notBefore) && inst(notBefore) <= inst(notAfter) && inst(notAfter) <= 2305843009213693952
+//@ requires dr.m.RenewBefore >= 0
+//@ ensures result >= 0
+//@ canary ensures result > 0
